@@ -62,8 +62,8 @@ type lifeCycle struct {
 	closeWant     int
 	closeErrs     []error
 	markerOK      bool
-	dupConnect    bool  // Connect is called again while this connection is up
-	early         bool  // the cause is started from the dialer, before Connect has returned
+	dupConnect    bool // Connect is called again while this connection is up
+	early         bool // the cause is started from the dialer, before Connect has returned
 	bgBusy        time.Duration
 	failFirst     []int // failing Connect attempts made before this connection: 0 no server, 1 dial error, 2 dial cancelled
 	dupDone       bool
@@ -253,7 +253,7 @@ func lifeRun(e *Env) {
 		}
 		return nil
 	}
-	w.c = NewClient(ClientOpts{Nick: w.nick, Ident: "sim", Name: "Sim User", Flood: w.flood, PingFreq: w.pingFreq, Track: w.track, CtxDialer: w.ctxDial})
+	w.c = NewClient(g.Knobs(ClientOpts{Nick: w.nick, Ident: "sim", Name: "Sim User", Flood: w.flood, PingFreq: w.pingFreq, Track: w.track, CtxDialer: w.ctxDial}))
 	w.install()
 	e.Notef("cycles=%d reconnect-from=%s track=%v flood-protection=%v ping=%v ctx-dialer=%v", w.ncycles,
 		reconnNames[w.reconn], w.track, !w.flood, w.pingFreq, w.ctxDial)
